@@ -100,4 +100,62 @@ inductive Reachable (P : Params) : St → Prop
   | init : Reachable P {}
   | step (s s' : St) (e : Ev) : Reachable P s → Step P s e s' → Reachable P s'
 
+/-- the Go map a balancer returns for the members `ms`, as the balancer parameter of the round model -/
+def balanceOf (b : List Member → List Part → KV.Spec.GroupAssign.Asg) : List Member → List Part → Assignments :=
+  fun ms got => mapOf (b ms got) (ms.map (·.id)) (extractTopics ms)
+
+/-! ### executable acceptor (for trace acceptance by the oracle); `stepB_sound` in Lemmas/GroupRound.lean -/
+
+open KV.Spec.GroupAssign in
+/-- decidable form of `ReadsTopics`: racks that occur in neither listing lead nothing in both -/
+def readsTopicsB (cluster : List Part) (topics : List Nat) (got : List Part) : Bool :=
+  topics.all fun t => decide (partsOf t got = partsOf t cluster) &&
+    ((got ++ cluster).map (·.zone)).all fun z => decide (ledIn got t z = ledIn cluster t z)
+
+def isJoining : MPC → Bool
+  | .joining => true
+  | _ => false
+
+def stepB (P : Params) (s : St) : Ev → Option St
+  | .newRound ms leader =>
+    if ms.any (fun m => m.id == leader) then some { s with rounds := s.rounds ++ [⟨nextGid s, ms, leader⟩] } else none
+  | .joinOk m gid =>
+    match s.rounds.find? (fun r => r.gid == gid) with
+    | some r =>
+      if r.ms.any (fun x => x.id == m) && isJoining (s.pc m) then
+        some (setPc s m (if r.leader = m then .assigning gid r.ms else .syncing gid none))
+      else none
+    | none => none
+  | .assign m got =>
+    match s.pc m with
+    | .assigning gid ms =>
+      if readsTopicsB P.cluster (extractTopics ms) got then some (setPc s m (.syncing gid (some (got, P.balance ms got))))
+      else none
+    | _ => none
+  | .syncLeader m =>
+    match s.pc m with
+    | .syncing gid (some (got, A)) =>
+      match s.rounds.find? (fun r => r.gid == gid && r.leader == m) with
+      | some r =>
+        if gid == s.rounds.length && (findStored s gid).isNone then
+          some (setPc { s with stored := s.stored ++ [⟨gid, r.ms, got, A⟩] } m (.running gid (received P.ρ A m)))
+        else none
+      | none => none
+    | _ => none
+  | .syncMember m =>
+    match s.pc m with
+    | .syncing gid none =>
+      match findStored s gid with
+      | some x => if gid == s.rounds.length then some (setPc s m (.running gid (received P.ρ x.asg m))) else none
+      | none => none
+    | _ => none
+  | .rejoin m => some (setPc s m .joining)
+
+/-- replay a trace; `Except.error k` = event number `k` is not a step of the model -/
+def runB (P : Params) : St → List Ev → Nat → Except Nat St
+  | s, [], _ => .ok s
+  | s, e :: es, k => match stepB P s e with
+    | some s' => runB P s' es (k + 1)
+    | none => .error k
+
 end KV.GroupRound
